@@ -5,6 +5,7 @@ REGISTRY = {
     "C09": "machines.weights",
     "C12": "machines.cache",
     "C14": "machines.exchange",
+    "C15": "machines.mesh",
     "C16": "machines.linalg",
     "C17": "machines.config",
 }
